@@ -301,7 +301,7 @@ func c08Worker(t *testing.T) {
 					}
 					return &c08Adapter{w, res, &mu}, nil
 				},
-				MaxDeviations: job.Scn.Dev,
+				MaxDeviations: -1, // the world enforces the budgets itself
 				Workers:       1,
 				Stop:          func() bool { return job.BudgetS > 0 && c08Wall() > deadline },
 			}, func(hist []string, v any) {
@@ -448,7 +448,7 @@ func c08Spaces(thorough bool) []c08Scn {
 	)
 	var out []c08Scn
 	add := func(name string, dev, faults int, pays ...c08Pay) {
-		out = append(out, c08Scn{Name: name, Pays: pays, Dev: dev, Faults: faults})
+		out = append(out, c08Scn{Name: name, Pays: pays, Dev: dev, Faults: faults, Total: dev})
 	}
 	dev, faults := 1, 1
 	if thorough {
